@@ -65,7 +65,14 @@ func (w effWrite) key() string {
 	return fmt.Sprintf("%s|%d|%v|%s|%s|%d", w.root, w.param, w.rootObj, w.relString(), w.how, w.pos)
 }
 
+type litWrite struct {
+	lit   *ast.FuncLit
+	param int
+	w     effWrite
+}
+
 type effSummary struct {
+	litWrites   map[string]litWrite // writes rooted at a parameter of a function literal of this function
 	writes      map[string]effWrite
 	returnsFresh bool
 	conc        []string // go statements, channel operations, sync/atomic use
@@ -145,7 +152,7 @@ func effects(c *Ctx) *effEngine {
 	e := &effEngine{c: c, sum: map[*core.FuncInfo]*effSummary{}}
 	funcs := c.P.SortedFuncs()
 	for _, fi := range funcs {
-		e.sum[fi] = &effSummary{writes: map[string]effWrite{}, extCalls: map[string]extCall{}}
+		e.sum[fi] = &effSummary{writes: map[string]effWrite{}, extCalls: map[string]extCall{}, litWrites: map[string]litWrite{}}
 	}
 	// returns-fresh first (needed by freshness of locals)
 	for iter := 0; iter < 4; iter++ {
@@ -156,9 +163,9 @@ func effects(c *Ctx) *effEngine {
 	for iter := 0; iter < 10; iter++ {
 		changed := false
 		for _, fi := range funcs {
-			n := len(e.sum[fi].writes) + len(e.sum[fi].extCalls)
+			n := len(e.sum[fi].writes) + len(e.sum[fi].extCalls) + len(e.sum[fi].litWrites)
 			e.analyze(fi)
-			if len(e.sum[fi].writes)+len(e.sum[fi].extCalls) != n {
+			if len(e.sum[fi].writes)+len(e.sum[fi].extCalls)+len(e.sum[fi].litWrites) != n {
 				changed = true
 			}
 		}
@@ -250,8 +257,11 @@ func (e *effEngine) freshLocal(fi *core.FuncInfo, o types.Object, depth int) boo
 	}
 	ld := e.c.P.Locals(fi)
 	if ld.Params[o] {
-		// named results start as zero values
+		// named results start as zero values; parameters (of the function or of a function literal) are not fresh
 		if _, isParam := e.paramIndex(fi, o); isParam {
+			return false
+		}
+		if _, _, isLit := e.litParam(fi, o); isLit {
 			return false
 		}
 	}
@@ -386,6 +396,15 @@ func (e *effEngine) add(fi *core.FuncInfo, w effWrite) {
 // recordWrite records a store to the location denoted by target (an lvalue
 // expression or, for deref=true, the pointee/element storage of target).
 func (e *effEngine) recordWrite(fi *core.FuncInfo, target ast.Expr, how string, pos token.Pos, value ast.Expr, rel []core.Step, via []string, origin *core.FuncInfo, lhs string, unknownRel bool) {
+	// a store through *p where p = &x.f is a store to x.f itself
+	if u, ok := core.Unparen(target).(*ast.UnaryExpr); ok && u.Op == token.AND && len(rel) > 0 && rel[0].Field == nil && rel[0].Name == "*" {
+		if sel, isSel := core.Unparen(u.X).(*ast.SelectorExpr); isSel {
+			if fv := core.FieldOf(fi.Pkg.TypesInfo, sel); fv != nil {
+				e.recordWrite(fi, sel.X, how, pos, value, append([]core.Step{{Field: fv, Name: fv.Name()}}, rel[1:]...), via, origin, lhs, unknownRel)
+				return
+			}
+		}
+	}
 	p := e.c.P.PathOf(fi, target, true)
 	if p == nil {
 		p2 := e.c.P.PathOf(fi, target, false)
@@ -406,6 +425,33 @@ func (e *effEngine) recordWrite(fi *core.FuncInfo, target ast.Expr, how string, 
 		}
 	}
 	e.recordPath(fi, p, how, pos, value, rel, via, origin, lhs, unknownRel)
+}
+
+// litParam: o is the idx-th parameter of a function literal inside fi.
+func (e *effEngine) litParam(fi *core.FuncInfo, o types.Object) (*ast.FuncLit, int, bool) {
+	var found *ast.FuncLit
+	idx := -1
+	info := fi.Pkg.TypesInfo
+	ast.Inspect(fi.Decl.Body, func(n ast.Node) bool {
+		fl, ok := n.(*ast.FuncLit)
+		if !ok || found != nil {
+			return found == nil
+		}
+		i := 0
+		for _, f := range fl.Type.Params.List {
+			if len(f.Names) == 0 {
+				i++
+			}
+			for _, nm := range f.Names {
+				if info.Defs[nm] == o {
+					found, idx = fl, i
+				}
+				i++
+			}
+		}
+		return true
+	})
+	return found, idx, found != nil
 }
 
 // aliasTargets expands a path rooted at a multiply-defined local into the paths it may alias.
@@ -485,6 +531,16 @@ func (e *effEngine) recordPath(fi *core.FuncInfo, p *core.Path, how string, pos 
 	root, param, obj, fresh := e.classify(fi, p)
 	if fresh {
 		return
+	}
+	if root == "unknown" && p != nil && p.Root != nil {
+		if lit, idx, ok := e.litParam(fi, p.Root); ok {
+			w := effWrite{root: "param", param: idx, rootObj: p.Root, steps: append(append([]core.Step{}, p.Steps...), rel...), how: how, pos: pos, fn: origin, via: via, lhs: lhs, unknownRel: unknownRel}
+			k := fmt.Sprintf("%d|%s", lit.Pos(), w.key())
+			if _, dup := e.sum[fi].litWrites[k]; !dup {
+				e.sum[fi].litWrites[k] = litWrite{lit: lit, param: idx, w: w}
+			}
+			return
+		}
 	}
 	var steps []core.Step
 	copied := false
@@ -651,7 +707,15 @@ func (e *effEngine) call(fi *core.FuncInfo, call *ast.CallExpr) {
 			return
 		}
 	}
-	fns, _ := e.c.P.Callees(fi, call)
+	fns, lits := e.c.P.Callees(fi, call)
+	for _, lit := range lits {
+		for _, lw := range s.litWrites {
+			if lw.lit != lit || lw.param >= len(call.Args) || len(lw.w.via) > 10 {
+				continue
+			}
+			e.recordWrite(fi, call.Args[lw.param], lw.w.how, lw.w.pos, nil, lw.w.steps, append([]string{"closure"}, lw.w.via...), lw.w.fn, lw.w.lhs, lw.w.unknownRel)
+		}
+	}
 	var recvExpr ast.Expr
 	if sel, ok := core.Unparen(call.Fun).(*ast.SelectorExpr); ok {
 		if _, isSel := info.Selections[sel]; isSel {
